@@ -32,9 +32,10 @@ def bitlen_is(r, x, t):
             % (r, r, N, r, N, x, r, N, r, x, r, N))
 
 
-def clz_is(r, x, t):
+def clz_is(r, x, t, off=0):
+    """(r + off) == N - bitlen(x); the range guard comes first so that the spec arithmetic cannot wrap"""
     N = t.bits
-    return bitlen_is('(%d - %s)' % (N, r), x, t)
+    return '(%s >= %d && %s <= %d && %s)' % (r, -off, r, N - off, bitlen_is('(%d - %s)' % (N - off, r), x, t))
 
 
 def ctz_is(r, x, t):
@@ -72,25 +73,25 @@ def F(name, signed=False):
 
 
 @F('countl_zero')
-def _(t):
-    x = x_(t)
+def _(t, e='a0'):
+    x = x_(t, e)
     return [clz_is(RET, x, t)], lambda v: t.bits - py_bitlen(v)
 
 
 @F('countl_one')
-def _(t):
-    x = not_(x_(t), t)
+def _(t, e='a0'):
+    x = not_(x_(t, e), t)
     return [clz_is(RET, x, t)], lambda v: t.bits - py_bitlen(~v & ((1 << t.bits) - 1))
 
 
 @F('countr_zero')
-def _(t):
-    return [ctz_is(RET, x_(t), t)], lambda v: (v & -v).bit_length() - 1 if v else t.bits
+def _(t, e='a0'):
+    return [ctz_is(RET, x_(t, e), t)], lambda v: (v & -v).bit_length() - 1 if v else t.bits
 
 
 @F('countr_one')
-def _(t):
-    x = not_(x_(t), t)
+def _(t, e='a0'):
+    x = not_(x_(t, e), t)
 
     def o(v):
         w = ~v & ((1 << t.bits) - 1)
@@ -99,18 +100,18 @@ def _(t):
 
 
 @F('popcount')
-def _(t):
-    return ['%s == %s' % (RET, popcount_expr(x_(t), t))], lambda v: bin(v).count('1')
+def _(t, e='a0'):
+    return ['%s == %s' % (RET, popcount_expr(x_(t, e), t))], lambda v: bin(v).count('1')
 
 
 @F('ispow2')
-def _(t):
-    return ['($RET != 0) == (%s == 1)' % popcount_expr(x_(t), t)], lambda v: 1 if bin(v).count('1') == 1 else 0
+def _(t, e='a0'):
+    return ['($RET != 0) == (%s == 1)' % popcount_expr(x_(t, e), t)], lambda v: 1 if bin(v).count('1') == 1 else 0
 
 
 @F('floor2')
-def _(t):
-    x = x_(t)
+def _(t, e='a0'):
+    x = x_(t, e)
     r = '((%s)$RET)' % U(t)
     return ['%s == 0 ==> %s == 0' % (x, r),
             '%s != 0 ==> (%s == 1 && %s <= %s && (%s >> 1) < %s)' % (x, popcount_expr(r, t), r, x, x, r)], \
@@ -118,8 +119,8 @@ def _(t):
 
 
 @F('ceil2')
-def _(t):
-    x = x_(t)
+def _(t, e='a0'):
+    x = x_(t, e)
     r = '((%s)$RET)' % U(t)
     top = '(((%s)1) << %d)' % (U(t), t.bits - 1)
     # std::bit_ceil is undefined when the result is not representable: x <= 2^(N-1) required; ceil2(0)==0 is the documented deviation
@@ -129,8 +130,8 @@ def _(t):
 
 
 @F('log2p1')
-def _(t):
-    return [bitlen_is(RET, x_(t), t)], lambda v: v.bit_length()
+def _(t, e='a0'):
+    return [bitlen_is(RET, x_(t, e), t)], lambda v: v.bit_length()
 
 
 def fold_signed(t, e='a0'):
@@ -141,77 +142,89 @@ def fold_signed(t, e='a0'):
 
 
 @F('countl_rsb', signed=True)
-def _(t):
-    return [clz_is('(%s + 1)' % RET, fold_signed(t), t)], lambda v: t.bits - py_bitlen(v if v >= 0 else -v - 1) - 1
+def _(t, e='a0'):
+    return [clz_is(RET, fold_signed(t, e), t, 1)], lambda v: t.bits - py_bitlen(v if v >= 0 else -v - 1) - 1
 
 
 @F('countl_rb')
-def _(t):
+def _(t, e='a0'):
     if t.signed:
-        return [clz_is('(%s + 1)' % RET, fold_signed(t), t)], lambda v: t.bits - py_bitlen(v if v >= 0 else -v - 1) - 1
-    return [clz_is(RET, x_(t), t)], lambda v: t.bits - py_bitlen(v)
+        return [clz_is(RET, fold_signed(t, e), t, 1)], lambda v: t.bits - py_bitlen(v if v >= 0 else -v - 1) - 1
+    return [clz_is(RET, x_(t, e), t)], lambda v: t.bits - py_bitlen(v)
 
 
 @F('countr_used')
-def _(t):
+def _(t, e='a0'):
     if t.signed:
-        return [bitlen_is(RET, fold_signed(t), t)], lambda v: py_bitlen(v if v >= 0 else -v - 1)
-    return [bitlen_is(RET, x_(t), t)], lambda v: py_bitlen(v)
+        return [bitlen_is(RET, fold_signed(t, e), t)], lambda v: py_bitlen(v if v >= 0 else -v - 1)
+    return [bitlen_is(RET, x_(t, e), t)], lambda v: py_bitlen(v)
 
 
-def plan(tier):
-    thorough = tier == 'thorough'
-    uns = ['u8', 'u16', 'u32', 'u64'] + (['u128'] if thorough else [])
-    sig = ['i8', 'i16', 'i32', 'i64'] + (['i128'] if thorough else [])
-    src = {'clang': [KERNEL_HEAD, '#include <cnl/bit.h>\n#include <cnl/numeric.h>\n'], 'gcc': [KERNEL_HEAD, '#include <cnl/bit.h>\n#include <cnl/numeric.h>\n']}
-    jobs = []
-    inst = 0
-    for cfg in ('clang', 'gcc'):
-        kname = 'C18_' + cfg
-        for fname, (fn, signed_only) in FUNCS.items():
-            if fname in ('countl_rb', 'countr_used'):
-                types = uns + sig
-            elif signed_only:
-                types = sig
-            else:
-                types = uns
-            for ts in types:
-                t = T(ts)
-                ens, oracle = fn(t)
-                req = []
-                if fname == 'ceil2':
-                    req = ['%s <= (((%s)1) << %d)' % (x_(t), U(t), t.bits - 1)]
-                sname = 'vp_%s_%s' % (fname, ts)
-                src[cfg].append(shim('int' if fname not in ('floor2', 'ceil2', 'ispow2') else ('bool' if fname == 'ispow2' else ts),
-                                     sname, [(ts, 'a')], 'return cnl::%s(a);' % fname))
-                pat = r'^\S+ cnl::%s<%s>\(%s\)$' % (fname, dem(ts), dem(ts))
 
-                def orc(oracle, fname, t):
-                    def o(v):
-                        if fname == 'ceil2' and v > (1 << (t.bits - 1)):
-                            return None
-                        return ('value', oracle(v))
-                    return o
-                jobs.append(Job('%s.%s.%s.%s' % (PROP, cfg, fname, ts), kname, pat,
-                                Contract(requires=req, ensures=ens, assigns=[]),
-                                shim=sname, shim_types=[ts], oracle=orc(oracle, fname, t), prop=PROP,
-                                unwind=t.bits + 3, timeout=300, layer=0, skip_this=False))
-                inst += 1
-        # rotations: all counts (symbolic unsigned int), result per the C++20 definition
-        for ts in uns:
+def unsigned_of(ts):
+    return 'u' + ts[1:]
+
+
+def table(types_u, types_s):
+    """(key, demangled-name pattern, Contract, shim body or None, oracle, shim types, ret) for every function under contract"""
+    rows = []
+
+    def add(key, pat, contract, call=None, oracle=None, types=None, ret='int', **kw):
+        rows.append(dict(key=key, pat=pat, contract=contract, call=call, oracle=oracle, types=types, ret=ret, kw=kw))
+
+    for fname, (fn, signed_only) in FUNCS.items():
+        if fname in ('countl_rb', 'countr_used'):
+            types = types_u + types_s
+        elif signed_only:
+            types = types_s
+        else:
+            types = types_u
+        for ts in types:
             t = T(ts)
-            N = t.bits
-            for fname in ('rotl', 'rotr'):
-                x = x_(t)
+            ens, oracle = fn(t)
+            req = []
+            if fname == 'ceil2':
+                req = ['%s <= (((%s)1) << %d)' % (x_(t), U(t), t.bits - 1)]
+
+            def orc(oracle, fname, t):
+                def o(v):
+                    if fname == 'ceil2' and v > (1 << (t.bits - 1)):
+                        return None
+                    return ('value', oracle(v))
+                return o
+            ret = 'int' if fname not in ('floor2', 'ceil2', 'ispow2') else ('bool' if fname == 'ispow2' else ts)
+            add('%s.%s' % (fname, ts), r'^\S+ cnl::%s<%s>\(%s\)$' % (fname, dem(ts), dem(ts)),
+                Contract(requires=req, ensures=ens, assigns=[]), 'return cnl::%s(a);' % fname, orc(oracle, fname, t), [ts], ret)
+    ti = T('i32')
+    add('popcount.promoted_int', r'^int cnl::popcount<int>\\(int\\)$',
+        Contract(requires=['(int32_t)a0 >= 0'], ensures=FUNCS['popcount'][0](ti)[0], assigns=[]))
+    add('countr_one.promoted_int', r'^int cnl::countr_one<int>\\(int\\)$',
+        Contract(requires=['(int32_t)a0 >= 0'], ensures=FUNCS['countr_one'][0](ti)[0], assigns=[]))
+    # recursive helper of countr_zero: defined for x != 0 only (its caller guards)
+    for ts in types_u:
+        t = T(ts)
+        ens, oracle = FUNCS['countr_zero'][0](t)
+        add('_bit_impl.countr_zero.%s' % ts, r'^int cnl::_bit_impl::countr_zero<%s>\(%s\)$' % (dem(ts), dem(ts)),
+            Contract(requires=['a0 != 0'], ensures=ens, assigns=[]))
+    # countl_rb functor
+    for ts in types_u + types_s:
+        t = T(ts)
+        ens, oracle = FUNCS['countl_rb'][0](t, '(*a1)')
+        add('_bit_impl.countl_rb.%s' % ts, r'cnl::_bit_impl::countl_rb<%s>::operator\(\)<%s>\(%s const&\) const$' % ('true' if t.signed else 'false', dem(ts), dem(ts)),
+            Contract(requires=[], ensures=ens, assigns=[]))
+    # rotations
+    for ts in types_u:
+        t = T(ts)
+        N = t.bits
+        u = U(t)
+        for fname in ('rotl', 'rotr'):
+            x = x_(t)
+            for inner in (False, True):
                 s = '((unsigned)(a1 %% %d))' % N
-                u = U(t)
                 if fname == 'rotl':
                     e = '(%s == 0 ? %s : (((%s << %s) | (%s >> (%d - %s))) & %s))' % (s, x, x, s, x, N, s, mask(t))
                 else:
                     e = '(%s == 0 ? %s : (((%s >> %s) | (%s << (%d - %s))) & %s))' % (s, x, x, s, x, N, s, mask(t))
-                sname = 'vp_%s_%s' % (fname, ts)
-                src[cfg].append(shim(ts, sname, [(ts, 'a'), ('u32', 's')], 'return cnl::%s(a, s);' % fname))
-                pat = r'^auto cnl::%s<%s>\(%s, unsigned int\)$' % (fname, dem(ts), dem(ts))
 
                 def orc(fname, N):
                     def o(v, s):
@@ -221,45 +234,76 @@ def plan(tier):
                             return ('value', ((v << s) | (v >> (N - s))) & m if s else v)
                         return ('value', ((v >> s) | (v << (N - s))) & m if s else v)
                     return o
-                jobs.append(Job('%s.%s.%s.%s' % (PROP, cfg, fname, ts), kname, pat,
-                                Contract(requires=[], ensures=['((%s)$RET) == %s' % (u, e)], assigns=[]),
-                                shim=sname, shim_types=[ts, 'u32'], oracle=orc(fname, N), prop=PROP, timeout=300, skip_this=False))
-                inst += 1
-        # digit counters of numeric.h
-        for ts in uns + sig:
-            t = T(ts)
-            N = t.bits
-            val = fold_signed(t, '(*a0)') if t.signed else x_(t, '(*a0)')
-            # used_digits(value, radix = 2)
-            sname = 'vp_used_digits_%s' % ts
-            src[cfg].append(shim('int', sname, [(ts, 'a')], 'return cnl::used_digits(a);'))
-            pat = r'^auto cnl::used_digits<%s>\(%s const&, int\)$' % (dem(ts), dem(ts))
-            jobs.append(Job('%s.%s.used_digits.%s' % (PROP, cfg, ts), kname, pat,
-                            Contract(requires=['a1 == 2'], ensures=[bitlen_is(RET, val, t)], assigns=[]),
-                            harness_pre='vp_in1 = 2;', cex_filter=lambda l: l[:1],
-                            shim=sname, shim_types=[ts], oracle=(lambda v: ('value', py_bitlen(v if v >= 0 else -v - 1))), prop=PROP,
-                            unwind=N + 3, timeout=300, skip_this=False))
-            sname = 'vp_leading_bits_%s' % ts
-            src[cfg].append(shim('int', sname, [(ts, 'a')], 'return cnl::leading_bits(a);'))
-            pat = r'^auto cnl::leading_bits<%s>\(%s const&\)$' % (dem(ts), dem(ts))
-            jobs.append(Job('%s.%s.leading_bits.%s' % (PROP, cfg, ts), kname, pat,
-                            Contract(requires=[], ensures=[bitlen_is('(%d - %s)' % (t.digits, RET), val, t)], assigns=[]),
-                            shim=sname, shim_types=[ts], oracle=(lambda t: lambda v: ('value', t.digits - py_bitlen(v if v >= 0 else -v - 1)))(t), prop=PROP,
-                            unwind=N + 3, timeout=300, skip_this=False))
-            sname = 'vp_trailing_bits_%s' % ts
-            src[cfg].append(shim('int', sname, [(ts, 'a')], 'return cnl::trailing_bits(a);'))
-            pat = r'^auto cnl::trailing_bits<%s>\(%s const&\)$' % (dem(ts), dem(ts))
-            xx = x_(t, '(*a0)')
-            jobs.append(Job('%s.%s.trailing_bits.%s' % (PROP, cfg, ts), kname, pat,
-                            Contract(requires=[], ensures=['%s == 0 ==> %s == 0' % (xx, RET), '%s != 0 ==> %s' % (xx, ctz_is(RET, xx, t))], assigns=[]),
-                            shim=sname, shim_types=[ts],
-                            oracle=(lambda t: lambda v: ('value', ((v & -v).bit_length() - 1) if v else 0))(t), prop=PROP,
-                            unwind=N + 3, timeout=300, skip_this=False))
-            inst += 3
+                if inner:
+                    add('_bit_impl.%s.%s' % (fname, ts), r'^auto cnl::_bit_impl::%s<%s>\(%s, unsigned int, unsigned int\)$' % (fname, dem(ts), dem(ts)),
+                        Contract(requires=['a2 == %d' % N], ensures=['((%s)$RET) == %s' % (u, e)], assigns=[]),
+                        'return cnl::_bit_impl::%s(a, s, %du);' % (fname, N), orc(fname, N), [ts, 'u32'], ts,
+                        harness_pre='vp_in2 = %d;' % N, cex_filter=lambda l: l[:2])
+                else:
+                    add('%s.%s' % (fname, ts), r'^auto cnl::%s<%s>\(%s, unsigned int\)$' % (fname, dem(ts), dem(ts)),
+                        Contract(requires=[], ensures=['((%s)$RET) == %s' % (u, e)], assigns=[]),
+                        'return cnl::%s(a, s);' % fname, orc(fname, N), [ts, 'u32'], ts)
+    # digit counters
+    for ts in types_u + types_s:
+        t = T(ts)
+        N = t.bits
+        val = fold_signed(t, '(*a0)') if t.signed else x_(t, '(*a0)')
+        val1 = fold_signed(t, '(*a1)') if t.signed else x_(t, '(*a1)')
+        pb = (lambda v: py_bitlen(v if v >= 0 else -v - 1))
+        add('used_digits_signed.%s' % ts,
+            r'cnl::_impl::used_digits_signed<%s>::operator\(\)<%s>\(%s const&, int\) const$' % ('true' if t.signed else 'false', dem(ts), dem(ts)),
+            Contract(requires=['a2 == 2'] + ([] if t.signed else []), ensures=[bitlen_is(RET, val1, t)], assigns=[]),
+            harness_pre='vp_in2 = 2;')
+        if t.signed:
+            # the signed functor calls the unsigned functor instantiated on the *signed* type with a non-negative value
+            add('used_digits_unsigned_on.%s' % ts,
+                r'cnl::_impl::used_digits_signed<false>::operator\(\)<%s>\(%s const&, int\) const$' % (dem(ts), dem(ts)),
+                Contract(requires=['a2 == 2', '(%s)(*a1) >= 0' % t.sctype], ensures=[bitlen_is(RET, x_(t, '(*a1)'), t)], assigns=[]),
+                harness_pre='vp_in2 = 2;')
+        add('used_digits.%s' % ts, r'^auto cnl::used_digits<%s>\(%s const&, int\)$' % (dem(ts), dem(ts)),
+            Contract(requires=['a1 == 2'], ensures=[bitlen_is(RET, val, t)], assigns=[]),
+            'return cnl::used_digits(a);', (lambda v: ('value', py_bitlen(v if v >= 0 else -v - 1))), [ts], 'int',
+            harness_pre='vp_in1 = 2;', cex_filter=lambda l: l[:1])
+        add('leading_bits.%s' % ts, r'^auto cnl::leading_bits<%s>\(%s const&\)$' % (dem(ts), dem(ts)),
+            Contract(requires=[], ensures=['(%s >= 0 && %s <= %d && %s)' % (RET, RET, t.digits, bitlen_is('(%d - %s)' % (t.digits, RET), val, t))], assigns=[]),
+            'return cnl::leading_bits(a);', (lambda t: lambda v: ('value', t.digits - py_bitlen(v if v >= 0 else -v - 1)))(t), [ts], 'int')
+        xx = x_(t, '(*a0)')
+        add('trailing_bits.%s' % ts, r'^auto cnl::trailing_bits<%s>\(%s const&\)$' % (dem(ts), dem(ts)),
+            Contract(requires=[], ensures=['%s == 0 ==> %s == 0' % (xx, RET), '%s != 0 ==> %s' % (xx, ctz_is(RET, xx, t))], assigns=[]),
+            'return cnl::trailing_bits(a);', (lambda t: lambda v: ('value', (((v % (1 << t.bits)) & -(v % (1 << t.bits))).bit_length() - 1) if v else 0))(t), [ts], 'int')
+    return rows
+
+
+def plan(tier):
+    thorough = tier == 'thorough'
+    uns = ['u8', 'u16', 'u32', 'u64'] + (['u128'] if thorough else [])
+    sig = ['i8', 'i16', 'i32', 'i64'] + (['i128'] if thorough else [])
+    rows = table(uns, sig)
+    head = KERNEL_HEAD + '#include <cnl/bit.h>\n#include <cnl/numeric.h>\n'
+    src = {'clang': [head], 'gcc': [head]}
+    jobs = []
+    for cfg in ('clang', 'gcc'):
+        kname = 'C18_' + cfg
+        repl_all = [(r['pat'], r['contract']) for r in rows]
+        for r in rows:
+            sname = None
+            if r['call']:
+                sname = 'vp_' + r['key'].replace('.', '_')
+                params = list(zip(r['types'], 'as'))
+                src[cfg].append(shim(r['ret'], sname, params, r['call']))
+            kw = dict(r['kw'])
+            jobs.append(Job('%s.%s.%s' % (PROP, cfg, r['key']), kname, r['pat'], r['contract'],
+                            replace=[x for x in repl_all if x[0] != r['pat']],
+                            shim=sname, shim_types=r['types'], oracle=r['oracle'], prop=PROP,
+                            timeout=300, skip_this=None, optional=True, unwind=70, **kw))
     kernels = [Kernel('C18_clang', ''.join(src['clang']), [], 'Clang paths'),
                Kernel('C18_gcc', ''.join(src['gcc']), ['-U__clang__'], 'GCC paths (intrinsic specialisations incl. __builtin_ctz / __builtin_clrsb)')]
-    meta = {'instantiations': inst,
-            'explanation': 'each bit utility proved equal to a closed bit-vector characterisation of the C++20 <bit> definition, for all values of each width; recursion closed by complete unwinding',
-            'not_applicable_parts': ['std::bit_ceil is undefined when the result is not representable: ceil2 is specified for x <= 2^(N-1) only'],
+    meta = {'instantiations': len(rows) * 2,
+            'explanation': 'each bit utility proved equal to a closed bit-vector characterisation of the C++20 <bit> definition for all values of each width; '
+                           'recursive definitions proved inductively (goto-instrument --enforce-contract-rec: the recursive call is replaced by the contract under proof), '
+                           'callers proved against callee contracts',
+            'not_applicable_parts': ['std::bit_ceil is undefined when the result is not representable: ceil2 is specified for x <= 2^(N-1) only',
+                                     'termination of the recursive definitions is not proved by the inductive route (partial correctness); '
+                                     'depth is bounded by the operand width by inspection of the shift in each recursive call'],
             'assumptions': []}
     return {'kernels': kernels, 'jobs': jobs, 'meta': meta}
